@@ -26,6 +26,7 @@ from .scenariomanager import ScenarioManagerHybrid
 from .scenariorunners import HybridRunner
 from .scenariorunners import SdRunner
 from .util.didyoumean import didyoumean
+from .util import floating_point as fp
 from .visualizations import visualizer
 
 
@@ -552,7 +553,9 @@ class bptk():
         self.session_state["results_log"][step] = simulation_results
 
         # move session step forward
-        self.session_state["step"]=step+dt
+        # stay on the decimal grid starttime + i*dt (no floating point drift)
+        starttime = self.session_state["starttime"]
+        self.session_state["step"]=fp.normalize(step+dt, dt, starttime, max(fp.scale(starttime), fp.scale(dt)))
 
         return flat_results if flat else simulation_results
 
